@@ -484,6 +484,11 @@ func checkCallbackListUntouched(c *Ctx, r *Report, rule string) {
 // several properties rest on the same structural fact (the search window, the lossless queue) and each check states
 // it for itself.
 func importObligations(r *Report, run func(sub *Report), fromRule, toRule string) {
+	importObligationsIf(r, run, fromRule, toRule, nil)
+}
+
+// importObligationsIf restates under toRule the obligations of fromRule whose construct satisfies keep.
+func importObligationsIf(r *Report, run func(sub *Report), fromRule, toRule string, keep func(construct string) bool) {
 	sub := NewReport("x")
 	run(sub)
 	for _, o := range sub.Obs {
@@ -491,6 +496,9 @@ func importObligations(r *Report, run func(sub *Report), fromRule, toRule string
 			continue
 		}
 		construct := strings.TrimPrefix(o.Key, o.Rule+" @ ")
+		if keep != nil && !keep(construct) {
+			continue
+		}
 		r.add(toRule, construct, o.Status, o.Pos, o.Msg, nil)
 	}
 }
